@@ -48,7 +48,7 @@ def run(ctx):
         batches.append(("start-all", s))
         totals["start-all"] = n
     # (c) sampled: plus the source finishing (Complete / Error / Done, also from a second goroutine of a stale source), one event, 2 client-side terminators
-    s, n = sc.generate(ctx, "sim", sc.gen_cfg("sim", MaxEvents=1, MaxTerm=2, MaxSrcTerm=1, MaxHB=0, UseD="TRUE", StartModes="StartAll", CfgOK="CfgAll", SeqSetup="FALSE"),
+    s, n = sc.generate(ctx, "sim", sc.gen_cfg("sim", MaxEvents=1, MaxTerm=2, MaxSrcTerm=1, MaxHB=0, UseD="TRUE", StartModes="StartAll", CfgOK="CfgAll", SeqSetup="FALSE", AllowCloseSub="TRUE"),
                        rng, simulate=2600 if quick else 10000, depth=400, timeout=2400, cap=1000 if quick else None)
     batches.append(("sim", s))
     totals["sim"] = n
@@ -57,6 +57,13 @@ def run(ctx):
                        rng, simulate=1000 if quick else 4000, depth=400, timeout=2400, cap=400 if quick else None)
     batches.append(("sim-seq", s))
     totals["sim-seq"] = n
+    # (e) sampled: three subscriber slots, nothing sequential (chains of re-subscription with the same id, a joiner arriving while
+    #     the trigger is torn down), CloseSubscription from the source
+    s, n = sc.generate(ctx, "sim3", sc.gen_cfg("sim3", NS=3, MaxEvents=1, MaxTerm=2, MaxSrcTerm=1, MaxHB=0, UseD="FALSE", StartModes="StartOkCtx",
+                                               CfgOK="CfgThree", SeqSetup="FALSE", AllowCloseSub="TRUE"),
+                       rng, simulate=600 if quick else 5000, depth=500, timeout=2400, cap=400 if quick else None)
+    batches.append(("sim3", s))
+    totals["sim3"] = n
     # ---- 3./4. replay + validate -------------------------------------------------------------------------------
     tot = sc.run_batches(ctx, PROP, binary, batches)
     mc_future.result()
